@@ -384,6 +384,12 @@ func sioSnapshot(c *sio.Crew) (map[string]*sioMach, bool) {
 			continue
 		}
 		live[mid] = &sioMach{Spec: sioCfgOf(m.SpecSource), State: sioStateOf(m.State)}
+		if m.State != nil {
+			// a state is plain JSON data in the Go types the matcher knows (also after it was read back from a store)
+			if ok, why := canonicalType(map[string]interface{}(m.State.Bs)); !ok {
+				live[mid].State = &sioState{Node: "!non-canonical bindings: " + why}
+			}
+		}
 	}
 	return live, wedged
 }
